@@ -710,28 +710,36 @@ def pool4_ok : AllOK env4 2 1 [xA, xB, xD] := by
   · exact xD_ok
 
 /-- `d ← a + b; d ← −d; d ← d·2^1; b ← rescale(b, 1); d ← d − b` on three slots: the data path runs, with the
-metadata of the metadata model, and slot 2 decodes to `−2(a+b) − b` -/
+metadata of the metadata model, and slot 2 decodes to `−2(a+b) − b` within
+`σ·(2·2·u₁ + u₅) + 2·E_a + 3·E_b` (`u₁ = 2^4/2^8`, `u₅ = 2^3/2^8`: the addition's two roundings are doubled by
+the later `·2`, the final subtraction adds one; the operands' budgets pass with gains 2 and 3) -/
 example : ∃ pool', drun env4 2 [xA, xB, xD] [.add false 2 0 1, .negAssign 2, .mulPow2Assign 2 1, .rescaleAssign 1 1,
       .addAssign true 2 1] = .ok pool' ∧
     DPool.cts pool' = [⟨⟨4, 8⟩, 3⟩, ⟨⟨4, 3⟩, 2⟩, ⟨⟨4, 3⟩, 2⟩] ∧
-    ∀ s M E, Tracks s 2 [xA, xB, xD] M E → ∃ E', ∀ c, pool'[2]? = some c → ∀ t, t < 2 →
-      Near (decC s c t) (1 * (2 ^ 1 * (-1 * (1 * M 0 t + 1 * M 1 t))) + -1 * (1 * M 1 t)) (wrap c) E' := by
+    ∀ s M E, Tracks s 2 [xA, xB, xD] M E → ∀ c, pool'[2]? = some c → ∀ t, t < 2 →
+      Near (decC s c t) (1 * (2 ^ 1 * (-1 * (1 * M 0 t + 1 * M 1 t))) + -1 * (1 * M 1 t)) (wrap c)
+        (sn 1 s * (2 * (2 * (2 ^ 4 / 2 ^ 8)) + 2 ^ 3 / 2 ^ 8) + 2 * E 0 + 3 * E 1) := by
   obtain ⟨pool', h, hc, _, hv⟩ := program_sem env4_ok [.add false 2 0 1, .negAssign 2, .mulPow2Assign 2 1,
     .rescaleAssign 1 1, .addAssign true 2 1] pool4_ok (mp := ([⟨⟨4, 8⟩, 3⟩, ⟨⟨4, 3⟩, 2⟩, ⟨⟨4, 3⟩, 2⟩] : Ckks.Pool)) (by decide)
-  refine ⟨pool', h, hc, fun s M E ht => ⟨(specRun env4 (sn 1 s) (DPool.cts [xA, xB, xD]) M E [.add false 2 0 1, .negAssign 2,
-    .mulPow2Assign 2 1, .rescaleAssign 1 1, .addAssign true 2 1]).2 2, fun c hc t htN => ?_⟩⟩
+  refine ⟨pool', h, hc, fun s M E ht c hc t htN => ?_⟩
   have := hv s M E ht 2 c hc t htN
-  have e : (specRun env4 (sn 1 s) (DPool.cts [xA, xB, xD]) M E [.add false 2 0 1, .negAssign 2, .mulPow2Assign 2 1,
+  have h1 : stepR env4 (DPool.cts [xA, xB, xD]) (LOp.add false 2 0 1).toOp = .ok [⟨⟨4, 8⟩, 3⟩, ⟨⟨4, 4⟩, 2⟩, ⟨⟨4, 4⟩, 2⟩] := by decide
+  have h2 : stepR env4 [⟨⟨4, 8⟩, 3⟩, ⟨⟨4, 4⟩, 2⟩, ⟨⟨4, 4⟩, 2⟩] (LOp.negAssign 2).toOp = .ok [⟨⟨4, 8⟩, 3⟩, ⟨⟨4, 4⟩, 2⟩, ⟨⟨4, 4⟩, 2⟩] := by decide
+  have h3 : stepR env4 [⟨⟨4, 8⟩, 3⟩, ⟨⟨4, 4⟩, 2⟩, ⟨⟨4, 4⟩, 2⟩] (LOp.mulPow2Assign 2 1).toOp = .ok [⟨⟨4, 8⟩, 3⟩, ⟨⟨4, 4⟩, 2⟩, ⟨⟨4, 4⟩, 2⟩] := by decide
+  have h4 : stepR env4 [⟨⟨4, 8⟩, 3⟩, ⟨⟨4, 4⟩, 2⟩, ⟨⟨4, 4⟩, 2⟩] (LOp.rescaleAssign 1 1).toOp = .ok [⟨⟨4, 8⟩, 3⟩, ⟨⟨4, 3⟩, 2⟩, ⟨⟨4, 4⟩, 2⟩] := by decide
+  have h5 : stepR env4 [⟨⟨4, 8⟩, 3⟩, ⟨⟨4, 3⟩, 2⟩, ⟨⟨4, 4⟩, 2⟩] (LOp.addAssign true 2 1).toOp = .ok [⟨⟨4, 8⟩, 3⟩, ⟨⟨4, 3⟩, 2⟩, ⟨⟨4, 3⟩, 2⟩] := by decide
+  have eM : (specRun env4 (sn 1 s) (DPool.cts [xA, xB, xD]) M E [.add false 2 0 1, .negAssign 2, .mulPow2Assign 2 1,
       .rescaleAssign 1 1, .addAssign true 2 1]).1 2 t
       = 1 * (2 ^ 1 * (-1 * (1 * M 0 t + 1 * M 1 t))) + -1 * (1 * M 1 t) := by
-    have h1 : stepR env4 (DPool.cts [xA, xB, xD]) (LOp.add false 2 0 1).toOp = .ok [⟨⟨4, 8⟩, 3⟩, ⟨⟨4, 4⟩, 2⟩, ⟨⟨4, 4⟩, 2⟩] := by decide
-    have h2 : stepR env4 [⟨⟨4, 8⟩, 3⟩, ⟨⟨4, 4⟩, 2⟩, ⟨⟨4, 4⟩, 2⟩] (LOp.negAssign 2).toOp = .ok [⟨⟨4, 8⟩, 3⟩, ⟨⟨4, 4⟩, 2⟩, ⟨⟨4, 4⟩, 2⟩] := by decide
-    have h3 : stepR env4 [⟨⟨4, 8⟩, 3⟩, ⟨⟨4, 4⟩, 2⟩, ⟨⟨4, 4⟩, 2⟩] (LOp.mulPow2Assign 2 1).toOp = .ok [⟨⟨4, 8⟩, 3⟩, ⟨⟨4, 4⟩, 2⟩, ⟨⟨4, 4⟩, 2⟩] := by decide
-    have h4 : stepR env4 [⟨⟨4, 8⟩, 3⟩, ⟨⟨4, 4⟩, 2⟩, ⟨⟨4, 4⟩, 2⟩] (LOp.rescaleAssign 1 1).toOp = .ok [⟨⟨4, 8⟩, 3⟩, ⟨⟨4, 3⟩, 2⟩, ⟨⟨4, 4⟩, 2⟩] := by decide
-    have h5 : stepR env4 [⟨⟨4, 8⟩, 3⟩, ⟨⟨4, 3⟩, 2⟩, ⟨⟨4, 4⟩, 2⟩] (LOp.addAssign true 2 1).toOp = .ok [⟨⟨4, 8⟩, 3⟩, ⟨⟨4, 3⟩, 2⟩, ⟨⟨4, 3⟩, 2⟩] := by decide
     simp only [specRun, h1, h2, h3, h4, h5, specM, upd, sg]
     simp
-  rw [e] at this
+  have eE : (specRun env4 (sn 1 s) (DPool.cts [xA, xB, xD]) M E [.add false 2 0 1, .negAssign 2, .mulPow2Assign 2 1,
+      .rescaleAssign 1 1, .addAssign true 2 1]).2 2
+      = sn 1 s * (2 * (2 * (2 ^ 4 / 2 ^ 8)) + 2 ^ 3 / 2 ^ 8) + 2 * E 0 + 3 * E 1 := by
+    simp only [specRun, h1, h2, h3, h4, h5, specE, upd, LOp.dst, ulpAt, ulpM]
+    simp [env4]
+    ring
+  rw [eM, eE] at this
   exact this
 
 /-! ### operations whose data path belongs to other slices: contracts
